@@ -49,7 +49,7 @@ finding(["C02","C13"], "S5", "AP.S~Shape.S",
 for key, sig in [("tensor.(*Dense).TensorMul(axesA)", "mutates element store at"), ("tensor.(*Dense).TensorMul(axesB)", "mutates element store at"),
                  ("tensor.Contract(aAxes)", "mutates via TensorMul: element store at"), ("tensor.Contract(bAxes)", "mutates via TensorMul: element store at")]:
     finding(["C19","C09"], "O3", key, "TensorMul normalises negative axes in place in the caller's axesA/axesB slices (axesA[i] += td)", sig, 11)
-finding(["C19","C13","C03","C08"], "O8", "tensor.(*Dense).ShallowClone#store1",
+finding(["C19","C13","C03","C08","C04"], "O8", "tensor.(*Dense).ShallowClone#store1",
         "ShallowClone shares old (and transposeWith) with the source: s := a.ShallowClone(); s.UT(); a.UT() puts one slice in the pool twice",
         "alias stored into another object", 33)
 
@@ -64,11 +64,37 @@ finding(["C18"], "P4", "tensor.allTypes",
         "unsynchronised write in tensor.Register", 25)
 
 # ---- engine L (layout predicates) ------------------------------------------------------------
-finding(["C12","C16","C07","C06","C11"], "L0", "tensor.prepDataUnary#useIter",
+finding(["C12","C16","C07","C06","C11","C04"], "L0", "tensor.prepDataUnary#useIter",
         "prepDataUnary has no data-order term: Neg(colA, WithIncr(rowZeros)) adds raw column-major data into a row-major buffer (non-incr reuse is compensated by handleFuncOpts giving reuse the operand's order)",
         "rows 12,20 of riA,riR,nnR,colA,colR", 41)
 
+ALL_M = ["C04"]
+for f in F:
+    if f["rule"] in ("M2", "M3"):
+        f["properties"] = sorted(set(f["properties"] + ALL_M))
+for key in ["tensor.(StdEng).MatMul@whichblas. ?%ad.RequiresIterator() ?%bd.RequiresIterator()", "tensor.(StdEng).MatVecMul@whichblas. ?%ad.RequiresIterator() ?%bd.RequiresIterator()"]:
+    finding(["C09"], "L1", key, "BLAS gateways never consult whether an operand requires an iterator: a sliced operand is multiplied from its raw window: a[0:2,0:2] . I = [0 1 2 3]",
+            "without a test of %ad.RequiresIterator(); without a test of %bd.RequiresIterator()", 15)
+for fn, k in [("argmaxDenseTensor", "ArgmaxFlat"), ("argminDenseTensor", "ArgminFlat")]:
+    finding(["C08"], "L1", "tensor.(StdEng).%s@$r.E.%s( ?$t.RequiresIterator()" % (fn, k),
+            "Argmax/Argmin over all axes scans the raw storage window with no layout test: wrong index for views and lazy transposes",
+            "without a test of $t.RequiresIterator()", 38)
+finding(["C10"], "L1", "tensor.(StdEng).denseRepeat@fastCopyDenseRepeat( ?$t.RequiresIterator()", "denseRepeat block-copies from the operand's raw storage without consulting its layout: Repeat(a[:,1:3],1,2) is wrong", "without a test of $t.RequiresIterator()", 32)
+finding(["C10"], "L1", "tensor.(StdEng).denseRepeat@copyDenseSliced( ?$t.RequiresIterator()", "denseRepeat block-copies from the operand's raw storage without consulting its layout", "without a test of $t.RequiresIterator()", 32)
+finding(["C14"], "F1", "tensor.numpyDtypes[Int64]", "Int64 is written as i8, which the reader maps to Int on 64-bit: an int64 tensor read back has dtype int (and ReadNpy then fails)", "Int64->i8->Int", 43)
+finding(["C14"], "F1", "tensor.numpyDtypes[Uint64]", "Uint64 is written as u8, which the reader maps to Uint on 64-bit", "Uint64->u8->Uint", 43)
+finding(["C14"], "F1", "tensor.numpyDtypes[Int32]", "GOARCH=386: Int32 is written as i4, which the reader maps to Int", "Int32->i4->Int", 43)
+finding(["C14"], "F1", "tensor.numpyDtypes[Uint32]", "GOARCH=386: Uint32 is written as u4, which the reader maps to Uint", "Uint32->u4->Uint", 43)
+finding(["C14"], "L1", "tensor.(*Dense).GobEncode@.Encode(&%data) ?$r.IsMaterializable()", "GobEncode of a view writes the whole storage window under the view's shape; GobDecode's sanity check rejects it (expected (3), got 7)", "without a test of $r.IsMaterializable()", 28)
+finding(["C14","C16"], "L1", "tensor.(*Dense).WriteNpy@for ($r.len() > %i) ?$r.RequiresIterator()", "WriteNpy emits Get(0..len) in storage order with fortran_order False: a column-major or transposed tensor is written as different data", "without a test of $r.RequiresIterator()", 18)
+finding(["C16","C20"], "L3", "tensor.(Float32Engine).Add@V. ⊨ $a.DataOrder().HasSameOrder($b.DataOrder())", "Float32Engine.Add discards prepDataVV's useIter and only tests RequiresIterator: row-major + column-major adds raw storage ([0 4 3 7 6 10])", "goal", 21)
+finding(["C16","C20"], "L3", "tensor.(Float64Engine).Add@V. ⊨ $a.DataOrder().HasSameOrder($b.DataOrder())", "Float64Engine.Add discards prepDataVV's useIter and only tests RequiresIterator: row-major + column-major adds raw storage ([0 4 3 7 6 10])", "goal", 21)
+finding(["C16"], "L3", "tensor.Copy@copyDense(%dt, %ts) ⊨ %ts.DataOrder().HasSameOrder(%dt.DataOrder())", "Copy between a column-major and a row-major tensor is a raw memcpy: [[0,1,2],[3,4,5]] becomes [0 3 1 4 2 5]", "goal", 18)
+finding(["C16"], "L4", "tensor.ToMat64@mat.NewDense( ?$t.DataOrder().IsColMajor()", "ToMat64 hands column-major storage to the row-major mat.Dense", "without a test of $t.DataOrder().IsColMajor()", 18)
+
 FIXED = [
+ {"property":"C04","commit":"de90854","rule":"L1","key":"tensor.(*Dense).Zero@$r.array.Zero()","what":"fixed: property=C04 de90854 Dense.Zero on a view fell through to the raw array.Zero(): a[:,1].Zero() on a 3x3 tensor zeroed 7 parent cells (DESIGN finding 4)"},
+ {"property":"C20","commit":"7b98fe7","rule":"L2","key":"tensor.(Float64Engine).FMAScalar, tensor.(Float32Engine).FMAScalar","what":"fixed: property=C20 7b98fe7 FMAScalar's iterator branch fell through to the raw kernel: result doubled (DESIGN finding 20)"},
  {"property":"C05","commit":"a2da045","rule":"I5","key":"tensor.hashIntArray","what":"fixed: property=C05 a2da045 hashIntArray returned the byte count of h.Write, so MultIteratorFromDense(a, bT) yielded offsets 0..5 for bT (DESIGN finding 6)"},
  {"property":"C05","commit":"4a64dbc","rule":"I4","key":"tensor.(*FlatIterator).Reset#isVector","what":"fixed: property=C05 FlatIterator.Reset reverse vector arm used axis 0: a (1,4) view reversed yielded [0 -1 -2 -3] (DESIGN finding 30)"},
  {"property":"C05","commit":"3afb7f7","rule":"I1","key":"tensor.(*MultIterator).NextValidity, NextValid","what":"fixed: property=C05 3afb7f7 MultIterator.NextValidity/NextValid used the opposite mask polarity: OR-mask [t f t t] made NextValid visit [0 2 3] (also C15; DESIGN finding 7)"},
